@@ -55,14 +55,18 @@ TEXT = {
            "dummy start is always added, every phase reaches every loop body, "
            "the phases after ingestion run on a deep copy of the model "
            "(may-alias analysis), event-type lists reach the multiset they "
-           "are compared with without losing repetitions. Decides the "
+           "are compared with without losing repetitions, every job of the "
+           "stream is ingested, the gate tree is translated totally, in-/out- "
+           "evidence is read and written in the same direction, the exit "
+           "fan-out of a loop is recorded before its edges are cut. Decides the "
            "plumbing, not the heuristics' language inclusion.",
     "C04": "Decides the four structural premises that make chunked learning "
            "equal one-shot learning at model level: stale-flag typestate on "
            "every write of the successor sets, symmetric total "
            "(de)serialisation, set-union accumulation of value objects, the "
            "saved dict is the updated dict and derived phases work on a "
-           "copy. Diagram-level equivalence is not decided.",
+           "copy, every graph of a stream is ingested. Diagram-level "
+           "equivalence is not decided.",
     "C05": "Decides totality/pairing/balance of the emission tables, that "
            "every emitted keyword occurs in the repository's own corpus with "
            "matching open/close pairing, the fixed frame, that every internal "
@@ -70,14 +74,18 @@ TEXT = {
            "labels are untouched event types, copies of diagram nodes carry "
            "every field, the per-path lists of a logic block rotate in "
            "lock-step, separators / block ends are connected per branch, the "
-           "output file is opened only after the text exists. Block closure "
+           "output file is opened only after the text exists, every created "
+           "node has a fresh identity, is registered on every path and is "
+           "connected. Block closure "
            "as a function of graph shape is not decided.",
     "C07": "Decides the recursion scheme of loop extraction (every cyclic "
            "SCC replaced, body decomposed recursively on a private copy, "
            "parent rewired and pruned from its root, loop components keep "
            "their role across hand-offs, a component revised after "
            "classification is revised before any phase reads it, carving "
-           "the body cuts only loop-back and boundary edges). Classification "
+           "the body cuts only loop-back and boundary edges, break events are "
+           "partitioned exactly between their two handlers, exit fan-out "
+           "recorded before the cut). Classification "
            "of loop components is value-dependent and not decided.",
     "C08": "Decides the structural clauses of the sequencing rules: overlap "
            "chains compare against the running maximum end, no empty group "
@@ -107,7 +115,7 @@ TEXT = {
            "orderings, name propagation from the root row, no orphan links, "
            "the window's ends are the min start / max end over every saved "
            "span and nothing else moves them, no phantom parent link.",
-    "C12": "Decides sort-key = group-key agreement, in-order consumption of "
+    "C12": "Decides sort-key = group-key agreement (incl. collation), in-order consumption of "
            "nested lazy groups along every consumer chain (stream variables "
            "identified by how they are bound), a broken trace is skipped "
            "without ending the stream, session scope of yields, filter "
@@ -116,7 +124,8 @@ TEXT = {
            "is skipped per record without aborting the stream, the three "
            "field tables agree, exactly-one-of validators, a yielded span is "
            "the one built from the current record, the input stream is never "
-           "rewound between two yields, file iteration skeleton; and one "
+           "rewound between two yields, single-pass parameters are traversed "
+           "once, file iteration skeleton; and one "
            "structural clause of the translation: every alternative of a "
            "field spec binds a jq variable of its own from its own paths. "
            "Agreement of the "
@@ -124,8 +133,8 @@ TEXT = {
            "decided (needs execution).",
     "C14": "Decides the plumbing: one learner fed by either arm with the "
            "same model arguments, save keys = load keys = type fields, "
-           "values survive JSON and the loader's validation model passes them "
-           "through unchanged, a record is rejected only for a missing key, "
+           "values survive JSON (writer and reader agree on the encoding) and "
+           "the loader's validation model passes them through unchanged, a record is rejected only for a missing key, "
            "an exhausted generator never reaches the learner, the mapping "
            "config reaches saver and loader, file listings take paths "
            "literally.",
